@@ -331,6 +331,15 @@ func runCase1(input string) string {
 			return "SLOW not run: unknown enc mode, or the printed texts carry a CR of their own"
 		}
 	}
+	if pad := m["pad"]; pad != "" {
+		// size (enc.go): a comment block of that many KiB in both files, the description goes on after it
+		kib, err := strconv.Atoi(pad)
+		if err != nil || kib < 1 || kib > 8192 {
+			return "BADINPUT pad"
+		}
+		one := m["pl"] == "1"
+		hclText, yamlText = padText(hclText, kib, true, one), padText(yamlText, kib, false, one)
+	}
 	dir := caseDir(input)
 	hname, yname, ok := fileNames(m)
 	if !ok {
@@ -530,6 +539,9 @@ func class(input, obs string) string {
 	}
 	if m["hi"] != "" {
 		parts = append(parts, "history")
+	}
+	if m["pad"] != "" {
+		parts = append(parts, "padded")
 	}
 	if ff := m["ff"]; ff != "" {
 		parts = append(parts, "io-fault-"+strings.TrimRight(strings.Split(ff, "+")[0], "0123456789"))
@@ -1494,6 +1506,27 @@ func generate(r *rand.Rand, tier string) []string {
 		}
 		out = append(out, line(sx, 0, d, "enc="+encModes[i%len(encModes)]))
 	}
+	// SIZE (enc.go): both files padded with a comment block of 63 KiB … 4.1 MiB, the description goes on after it
+	np := 1
+	if tier == "thorough" {
+		np = 4
+	}
+	for k := 0; k < np; k++ {
+		for _, kib := range padSizes {
+			d := g.describe()
+			for len(d.get("scenario").L) < 2 {
+				d = g.describe()
+			}
+			pl := ""
+			if kib == 63 || kib == 65 || kib == 1025 || kib == 2048 {
+				pl = "pl=1"
+			}
+			out = append(out, line(r.Int63n(1<<40), 0, d, "pad="+strconv.Itoa(kib), pl))
+			if kib == 65 {
+				out = append(out, line(r.Int63n(1<<40), 0, g.describe(), "pad=65"))
+			}
+		}
+	}
 	// every pair of file names once
 	for _, p := range namePairs {
 		out = append(out, line(r.Int63n(1<<40), 0, g.describe(), "hn="+hex.EncodeToString([]byte(p[0]))+" yn="+hex.EncodeToString([]byte(p[1]))))
@@ -1536,7 +1569,11 @@ func main() {
 			"extensions and dots in front, hidden files, unicode); EVERY case is decoded after another description was read from the same two " +
 			"paths, 8% while three goroutines decode other files with the same base names; every case runs in a child process (a crash of " +
 			"the Go runtime is the observation PANIC of that case); files with a `locals` block carrying a label must be " +
-			"refused as a whole; strings include 70–4000 character texts around yaml.v2's folding width; a case is non-trivial when it has at " +
-			"least one request or call",
+			"refused as a whole; strings include 70–4000 character texts around yaml.v2's folding width; round 6: 30% of the random cases and 150 sparse " +
+			"descriptions are converted after 1-3 other conversions from the same paths (hi=: full descriptions REJECTED by the common decoder, by " +
+			"yaml.Unmarshal of the hop, by a locals block, by the syntax; accepted ones); 6% + 140 multi-line descriptions are saved with CR LF line " +
+			"terminators (all / some / first / all but first / one file only); 12% + 120 leave optional scalar arguments out as null (literal, a local " +
+			"whose value is null, a derived local, coalesce(local.z, v)); 11 cases pad both files with a 63 KiB - 4.1 MiB comment block (lines or one " +
+			"line) in front of the rest of the description; a case is non-trivial when it has at least one request or call",
 	})
 }
